@@ -71,6 +71,10 @@ def tasks(tier, seed):
         for P in (1, 2):
             for k in (1, 2, 3):
                 add("expected", 3, [], "expected-greedy", rnd.choice(["exploitability", "l1_norm"]), m=m, P=P, k=k)
+    # play-outs with ONE solver instance and back-tracking through unstep in between ("at every reachable environment state")
+    for s_ in SOLVERS:
+        add("playout", 3, [], s_, "exploitability", depth=2, rounds=3)
+    add("playout", 3, [3], "random", "l1_norm", depth=2, rounds=2)
     # seven players (119 explorable coalitions: more than one machine word of action indices)
     if tier == "thorough":
         add("solver", 7, [], "largest", "l1_norm")
@@ -126,6 +130,29 @@ class _ChoiceRandom:
         self.offered.append(seq)
         return seq[self.inp.choose(len(seq), "Random.choice")]
 
+    # the rest of the random.Random surface a solver may legitimately use: every outcome is explored
+    def shuffle(self, x):
+        perms = list(itertools.permutations(range(len(x))))
+        p = perms[self.inp.choose(len(perms), "Random.shuffle")]
+        x[:] = [x[i] for i in p]
+
+    def sample(self, population, k):
+        pool = list(population)
+        return [pool.pop(self.inp.choose(len(pool), "Random.sample")) for _ in range(k)]
+
+    def randrange(self, *a):
+        r = range(*a)
+        return r[self.inp.choose(len(r), "Random.randrange")]
+
+    def randint(self, a, b):
+        return a + self.inp.choose(b - a + 1, "Random.randint")
+
+    def random(self):
+        x = self.inp.real(f"rnd{len(self.offered)}")
+        self.offered.append(["random()"])
+        self.inp.assume((x >= 0) & (x < 1) if self.inp.mode == "sym" else (0 <= float(x) < 1))
+        return x
+
 
 def scenario(pk, params, inp):
     n, K = params["n"], params["K"]
@@ -172,6 +199,26 @@ def scenario(pk, params, inp):
     if params["solver"] == "random":
         rs = _ChoiceRandom(inp)
         solver._generator = rs
+
+    if params["kind"] == "playout":
+        if hasattr(solver, "after_reset"):
+            solver.after_reset(env)
+        proposals = []
+        for rnd_ in range(params["rounds"]):
+            taken = []
+            for _d in range(params["depth"]):
+                mask = [bool(x) for x in env.action_masks()]
+                if not any(mask):
+                    break
+                a = int(solver.next_step(env))
+                proposals.append({"round": rnd_, "action": a, "valid": bool(0 <= a < len(mask) and mask[a]), "mask_after": [bool(x) for x in env.action_masks()] == mask})
+                if not proposals[-1]["valid"]:
+                    break
+                env.step(a)
+                taken.append(a)
+            for a in reversed(taken):
+                env.unstep(a)
+        return {"proposals": proposals, "ex": ex}
 
     def snap():
         g = env.incomplete_game
@@ -221,6 +268,11 @@ def claims(params, inp, out, lg):
             cl.append((f"never-below-exhaustive-optimum:size={s}", lg.Or([lg.le(_mean(lg, row), _mean(lg, out["curve"][s])) for _, row in opt])))
             if s == 1:
                 cl.append(("equals-optimum-for-one-reveal", lg.And([lg.le(_mean(lg, out["curve"][1]), _mean(lg, row)) for _, row in opt])))
+        return cl
+    if params["kind"] == "playout":
+        for i, p in enumerate(out["proposals"]):
+            cl.append((f"proposal-is-currently-valid:round={p['round']}:#{i}", p["valid"] is True, f"C13/{params['solver']}/invalid-action-after-backtracking"))
+            cl.append((f"proposal-leaves-mask:round={p['round']}:#{i}", p["mask_after"] is True))
         return cl
     a = out["action"]
     valid = out["valid"]
